@@ -153,7 +153,13 @@ func vfAmounts() []string {
 	p := func(k uint, d int64) string { return new(big.Int).Add(vfPow2(k), big.NewInt(d)).String() }
 	return []string{"0", "1", "2", "10", "200", p(32, 0), p(63, -1), p(63, 0), p(63, 1), p(64, -1), p(64, 0),
 		p(128, 0), p(255, 0), p(256, -1), p(256, 0), p(256, 5), p(257, 0), "007", "+5", "+05", "-0", "-1", "-5",
-		"-" + p(256, -5), "", "+", "-", "1 ", " 1", "1_0", "0x10", "1e3", "1.0", "٥", "５", "12a", "--1", "+-1", "\x00"}
+		"-" + p(256, -5), "", "+", "-", "1 ", " 1", "1_0", "0x10", "1e3", "1.0", "٥", "５", "12a", "--1", "+-1", "\x00",
+		"0100", "010", "0777", "00100", "+010", "-010", "08", "0b1", "0B11", "0o7", "0O17", "0X1f", "0x", "1_000", "0_1"}
+}
+
+// vfAmountSpellings: spellings a prefix-sensitive parser (base 0) would read differently
+func vfAmountSpellings() []string {
+	return []string{"0100", "010", "0777", "00100", "+010", "0x10", "0b1", "0o7", "1_000"}
 }
 
 func vfInt64s() []int64 {
